@@ -1,20 +1,249 @@
 """C16 matrix: one cell per signature `cause/level/attribute/spelling/item-kind`.
 
-Every cell has a builder `build(rng, j) -> (Item, subkind)`; `j` is the instance index inside the cell and
-drives the deterministic rotations (which twin half is kept, tagged/unit enum, alone/mixed placement ...),
-the rng (seeded from VERIF_SEED) only varies the base item around the poison.
+Every cell is instantiated once per legal CONTEXT attribute of the poison's own level (another valid attribute that
+accompanies the poison: validation code is sometimes only reached, or skipped, depending on unrelated attributes),
+with a rotated PLACEMENT of the context (before / after the poison, same #[deserr(..)] or a separate one) and a
+rotated FOREIGN inert attribute (#[rustfmt::skip], #[allow], doc, cfg_attr, #[serde]) before / between / after the
+deserr attributes.  All rotations are deterministic functions of the instance index; the rng (VERIF_SEED) only
+varies the base item around the poison.
 """
-from gen import (Atom, N, Line, layout, gen_base, gen_field, field_noise, Field, Variant, snake, pascal, lit,
-                 type_by_name, TYPES, MAPS, FROMS, TRY_FROMS)
+from gen import (Atom, N, Line, layout, place, poison_lines, add_foreign, sprinkle, gen_base, gen_field, field_noise,
+                 variant_noise, Field, Variant, snake, pascal, lit, type_by_name, TYPES, MAPS, FROMS, TRY_FROMS)
 
 CELLS = []
 
+CONT_CTX = ["none", "error", "rename_all", "deny_unknown_fields", "validate", "from", "try_from", "where_predicate",
+            "generic_param", "mix"]
+FIELD_CTX = ["none", "rename", "default", "skip", "map", "from", "try_from", "error", "missing_field_error",
+             "needs_predicate", "mix"]
+VAR_CTX = ["none", "rename", "rename_all", "mix"]
+PLACEMENTS = ["before-same", "after-sep", "after-same", "before-sep"]
+FOREIGN_ROT = [("tool", "before"), ("allow", "after"), ("tool", "between"), ("none", "none"), ("doc", "before"),
+               ("serde", "between"), ("cfg_attr", "before"), ("doccomment", "after"), ("tool", "after"),
+               ("serde", "before"), ("doccomment", "before"), ("allow", "between"), ("cfg_attr", "after")]
+NO_TF = ("rename_all", "deny_unknown_fields", "tag")
+C_FROM = ["from(String) = cfrom_a", "from(u64) = cfrom_b", "from(&String) = cfrom_r"]
+C_TRY = ["try_from(String) = ctry_a -> h::ConvErrA", "try_from(&u64) = ctry_b -> h::ConvErrB"]
 
-def cell(sig, family, level, k=2):
-    def deco(fn):
-        CELLS.append({"sig": sig, "family": family, "level": level, "k": k, "build": fn})
-        return fn
-    return deco
+
+class Cell:
+    def __init__(self, sig, family, level, fams, poison, kinds=None, hosts=None, ty=None, mode=None, setup=None,
+                 conv_ok=True, base_kw=None, no_e=False):
+        self.sig, self.family, self.level = sig, family, level
+        self.fams = set(fams)          # attribute families the poison (or its twin) involves
+        self.poison = poison           # container/variant: f(rng, item, r) ; field: f(rng, item, r, ty)
+        self.kinds = kinds             # base kinds the cell may use
+        self.hosts = hosts             # field level: 'struct' / 'variant'
+        self.ty = ty                   # field level: None (free) | type name | 'maps'
+        self.mode = mode               # fixed error mode, if the cell needs one
+        self.setup = setup
+        self.conv_ok = conv_ok         # container from / try_from may accompany the poison (never for shapes)
+        self.base_kw = base_kw or {}
+        self.no_e = no_e
+        self.ctxs = self.legal_contexts()
+        CELLS.append(self)
+
+    # -- which context attributes keep "exactly one cause" and a compiling twin ------------------
+    def cont_legal(self, ctx, kind):
+        f = self.fams
+        if ctx in ("none", "mix"):
+            return True
+        if ctx in f:
+            return False
+        if ctx == "error":
+            return self.mode is None
+        if ctx in ("from", "try_from"):
+            if not self.conv_ok or f & {"from", "try_from"}:
+                return False
+            if ctx == "try_from" and (kind == "tagged" or f & set(NO_TF)):
+                return False
+            return True
+        if ctx in ("rename_all", "deny_unknown_fields"):
+            if "try_from" in f:
+                return False
+            return not (ctx == "deny_unknown_fields" and kind == "unit")
+        return True
+
+    def field_legal(self, ctx):
+        f = self.fams
+        if ctx in ("none", "mix"):
+            return True
+        if ctx in f:
+            return False
+        if ctx == "map":
+            return self.ty is None or self.ty == "maps" or self.ty in MAPS
+        if ctx in ("from", "try_from"):
+            return not (f & {"from", "try_from"}) and self.ty in (None, "h::W")
+        if ctx == "error":
+            return self.mode in (None, "own")
+        return True
+
+    def legal_contexts(self):
+        if self.level == "container":
+            return [c for c in CONT_CTX if any(self.cont_legal(c, k) for k in self.kinds)]
+        if self.level == "variant":
+            return [c for c in VAR_CTX if c in ("none", "mix") or c not in self.fams]
+        return [c for c in FIELD_CTX if self.field_legal(c)]
+
+    # -- instance -------------------------------------------------------------------------------
+    def build(self, rng, j, ci):
+        n = len(self.ctxs)
+        c, p = j % n, j // n
+        ctx = self.ctxs[c]
+        cpl = PLACEMENTS[(c + p + ci) % len(PLACEMENTS)]
+        fk, fp = FOREIGN_ROT[0] if j == 0 else FOREIGN_ROT[(3 * c + 5 * p + ci) % len(FOREIGN_ROT)]
+        r = c + p
+        if self.level == "container":
+            it, sub = self.build_container(rng, r, ctx, cpl, fk, fp)
+        elif self.level == "variant":
+            it, sub = self.build_variant(rng, r, ctx, cpl, fk, fp)
+        else:
+            it, sub = self.build_field(rng, r, ctx, cpl, fk, fp)
+        if self.level != "container":
+            it.lines = layout(rng, it.noise)
+            sprinkle(rng, it.lines)
+        meta = {"ctx": ctx, "cpl": cpl if ctx not in ("none", "mix") else "-", "fkind": fk, "fpos": fp}
+        return it, f"{sub}/ctx={ctx}/{meta['cpl']}/foreign={fk}-{fp}", meta
+
+    def build_container(self, rng, r, ctx, cpl, fk, fp):
+        kinds = [k for k in self.kinds if self.cont_legal(ctx, k)]
+        kind = kinds[r % len(kinds)]
+        if ctx == "mix":
+            excl = set(self.fams) | (set(NO_TF) if "try_from" in self.fams else set())
+            it = gen_base(rng, kind, mode=self.mode, exclude=tuple(excl), no_e_noise=self.no_e, **self.base_kw)
+        else:
+            mode = self.mode or (rng.pick(["json", "own"]) if ctx == "error" else "generic")
+            it = gen_base(rng, kind, mode=mode, exclude=tuple(self.fams), no_e_noise=self.no_e, plain=True,
+                          **self.base_kw)
+        if self.setup:
+            self.setup(rng, it, r)
+        atoms, sp, raw = self.poison(rng, it, r // len(kinds))
+        if ctx == "mix":
+            spo = {"single": "alone" if r % 2 == 0 else "one"}.get(sp, sp)
+            lines = layout(rng, it.noise, atoms, spo, raw) if (atoms or raw) else layout(rng, it.noise)
+            pl = poison_lines(lines, atoms, raw)
+        else:
+            extra = list(it.noise)
+            ctx_atoms = []
+            if ctx == "error":
+                ctx_atoms = [a for a in extra if a.p.startswith("error =")]
+                extra = [a for a in extra if not a.p.startswith("error =")]
+            elif ctx != "none":
+                ctx_atoms = [N(container_ctx_text(rng, it, ctx, self.no_e))]
+            lines, pl = place(rng, atoms, sp, raw, ctx_atoms, cpl, extra)
+        add_foreign(lines, pl, fk, fp)
+        it.lines = lines
+        return it, kind
+
+    def build_variant(self, rng, r, ctx, cpl, fk, fp):
+        kind = self.kinds[r % len(self.kinds)]
+        it = gen_base(rng, kind)
+        if self.setup:
+            v = self.setup(rng, it, r)
+        else:
+            want_struct = (r // len(self.kinds)) % 2 == 1
+            cands = [x for x in it.variants if x.fields is not None] if want_struct else []
+            v = rng.pick(cands or it.variants)
+        atoms, sp, raw = self.poison(rng, it, r // 2)
+        if ctx == "mix":
+            spo = {"single": "alone" if r % 2 == 0 else "one"}.get(sp, sp)
+            vn = variant_noise(rng, exclude=tuple(self.fams))
+            v.lines = layout(rng, vn, atoms, spo, raw) if (atoms or raw) else layout(rng, vn)
+            pl = poison_lines(v.lines, atoms, raw)
+        else:
+            ctx_atoms = []
+            if ctx == "rename":
+                ctx_atoms = [N(f'rename = "{lit(rng)}"')]
+            elif ctx == "rename_all":
+                ctx_atoms = [N("rename_all = " + rng.pick(["camelCase", "lowercase"]))]
+            v.lines, pl = place(rng, atoms, sp, raw, ctx_atoms, cpl, [])
+        add_foreign(v.lines, pl, fk, fp)
+        vk = "unit-variant" if v.fields is None else ("unnamed-variant" if v.shape_p else "struct-variant")
+        return it, f"{kind}/{vk}"
+
+    def build_field(self, rng, r, ctx, cpl, fk, fp):
+        host = self.hosts[r % len(self.hosts)]
+        mode = self.mode or ("own" if ctx == "error" else None)
+        it = gen_base(rng, "struct" if host == "struct" else "tagged", mode=mode)
+        ty = self.ty
+        if ty == "maps" or (ty is None and ctx == "map"):
+            ty = rng.pick(sorted(MAPS))
+        elif ty is None and ctx in ("from", "try_from"):
+            ty = "h::W"
+        elif ty is None:
+            ty = rng.pick(TYPES)[0]
+        atoms, sp, raw = self.poison(rng, it, r // len(self.hosts), ty)
+        if host == "struct":
+            fields = it.fields
+        else:
+            fields = rng.pick([v for v in it.variants if v.fields is not None]).fields
+        name = snake(rng, {f.name for f in fields})
+        if ctx == "mix":
+            spo = {"single": "alone" if r % 2 == 0 else "one"}.get(sp, sp)
+            if ty == "h::W":
+                noise = []
+                if "rename" not in self.fams and rng.chance(1, 2):
+                    noise.append(N(f'rename = "{lit(rng)}"'))
+                if "default" not in self.fams and rng.chance(1, 2):
+                    noise.append(N("default"))
+                if "needs_predicate" not in self.fams and rng.chance(1, 3):
+                    noise.append(N("needs_predicate"))
+            else:
+                noise = field_noise(rng, it, ty, exclude=tuple(self.fams) + ("skip",))
+            lines = layout(rng, noise, atoms, spo, raw)
+            pl = poison_lines(lines, atoms, raw)
+        else:
+            ctx_atoms = [] if ctx == "none" else [N(field_ctx_text(rng, it, ctx, ty))]
+            lines, pl = place(rng, atoms, sp, raw, ctx_atoms, cpl, [])
+        add_foreign(lines, pl, fk, fp)
+        fields.insert(rng.below(len(fields) + 1), Field(name, ty, lines))
+        return it, host
+
+
+def container_ctx_text(rng, it, ctx, no_e=False):
+    if ctx == "rename_all":
+        return "rename_all = " + rng.pick(["camelCase", "lowercase"])
+    if no_e and ctx == "deny_unknown_fields":
+        return "deny_unknown_fields"
+    if no_e and ctx == "where_predicate":
+        return "where_predicate = h::W: Clone"
+    if ctx == "deny_unknown_fields":
+        return rng.pick(["deny_unknown_fields", f"deny_unknown_fields = h::unknown_{rng.pick('ab')}::<{it.E}>"])
+    if ctx == "validate":
+        return rng.pick(["validate = check_a -> h::ValErrA", "validate = check_b -> h::ValErrB"])
+    if ctx == "from":
+        return rng.pick(C_FROM)
+    if ctx == "try_from":
+        return rng.pick(C_TRY)
+    if ctx == "where_predicate":
+        if it.mode == "generic" and rng.chance(1, 2):
+            return "where_predicate = __Deserr_E: deserr::MergeWithError<h::Odd>"
+        return rng.pick(["where_predicate = h::W: Clone", "where_predicate = u8: deserr::Deserr<%s>" % it.E])
+    if ctx == "generic_param":
+        return "generic_param = 'ctx"
+    raise KeyError(ctx)
+
+
+def field_ctx_text(rng, it, ctx, ty):
+    if ctx == "rename":
+        return f'rename = "{lit(rng)}"'
+    if ctx == "default":
+        return rng.pick(["default", "default = " + type_by_name(ty)[rng.rng(1, 2)]])
+    if ctx == "skip":
+        return "skip"
+    if ctx == "map":
+        return "map = " + rng.pick(MAPS[ty])
+    if ctx == "from":
+        return rng.pick(FROMS)
+    if ctx == "try_from":
+        return rng.pick(TRY_FROMS)
+    if ctx == "error":
+        return "error = h::E" + rng.pick("BC")
+    if ctx == "missing_field_error":
+        return f"missing_field_error = h::missing_{rng.pick('ab')}::<{it.E}>"
+    if ctx == "needs_predicate":
+        return "needs_predicate"
+    raise KeyError(ctx)
 
 
 def dup_atoms(a, b, keep):
@@ -22,99 +251,62 @@ def dup_atoms(a, b, keep):
     return [Atom(a, a if keep == 0 else None), Atom(b, b if keep == 1 else None)]
 
 
-def host_fields(rng, item, host):
-    """the field list that receives the poisoned field ('struct' or a struct-like variant of a tagged enum)"""
-    if host == "struct":
-        return item.fields
-    cands = [v for v in item.variants if v.fields is not None]
-    return rng.pick(cands).fields
+def fam_of(attr):
+    return attr.split("_fn")[0].split("_mixed")[0].split("_expr")[0]
 
 
-def add_field(rng, item, host, ty, poison, spelling, exclude=(), raw=None, with_noise=True):
-    fields = host_fields(rng, item, host)
-    used = {f.name for f in fields}
-    name = snake(rng, used)
-    noise = []
-    if with_noise:
-        if ty == "h::W":
-            if "rename" not in exclude and rng.chance(1, 3):
-                noise.append(N(f'rename = "{lit(rng)}"'))
-            if "default" not in exclude and rng.chance(1, 4):
-                noise.append(N("default"))
-        else:
-            noise = [a for a in field_noise(rng, item, ty, exclude=tuple(exclude) + ("skip",))]
-    f = Field(name, ty, layout(rng, noise, poison, spelling, raw))
-    fields.insert(rng.below(len(fields) + 1), f)
-    return f
-
-
-def base_for_field(rng, host, mode=None, **kw):
-    return gen_base(rng, "struct" if host == "struct" else "tagged", mode=mode, **kw)
-
-
-def finish_container(rng, item, poison=(), spelling=None, raw=None):
-    item.lines = layout(rng, item.noise, poison, spelling, raw)
-    return item
-
-
-def single_spelling(j):
-    return "alone" if j % 2 == 0 else "one"
-
+ALL_KINDS = ("struct", "tagged", "unit")
 
 # ------------------------------------------------------------------------------------------------
 # shapes
 
-@cell("shape/tuple-struct", "shape", "container", k=2)
-def _(rng, j):
-    it = gen_base(rng, "struct", quiet_fields=(j % 2 == 0))
+def _tuple(rng, it, r):
     it.shape_p = "tuple"
-    return finish_container(rng, it), "attrs-on-fields" if j % 2 else "plain-fields"
 
 
-@cell("shape/unit-struct", "shape", "container", k=2)
-def _(rng, j):
-    it = gen_base(rng, "struct", exclude=("validate",) if j % 2 else ())
+def _unit(rng, it, r):
     it.shape_p = "unit"
-    if j % 2:
+    if r % 2:
         it.shape_t = "empty"
-    return finish_container(rng, it), "twin-empty-braces" if j % 2 else "twin-with-fields"
 
 
-@cell("shape/union", "shape", "container", k=2)
-def _(rng, j):
-    it = gen_base(rng, "struct", quiet_fields=(j % 2 == 0), copy_only=True, exclude=("validate",))
+def _union(rng, it, r):
     it.keyword_p = "union"
-    return finish_container(rng, it), "attrs-on-fields" if j % 2 else "plain-fields"
 
 
-@cell("shape/unnamed-variant", "shape", "variant", k=3)
-def _(rng, j):
-    it = gen_base(rng, "tagged")
+def _nothing(rng, it, r, ty=None):
+    return [], "single", None
+
+
+Cell("shape/tuple-struct", "shape", "container", (), _nothing, kinds=("struct",), setup=_tuple, conv_ok=False)
+Cell("shape/unit-struct", "shape", "container", (), _nothing, kinds=("struct",), setup=_unit, conv_ok=False)
+Cell("shape/union", "shape", "container", (), _nothing, kinds=("struct",), setup=_union, conv_ok=False,
+     base_kw={"copy_only": True})
+Cell("shape/enum-without-tag", "shape", "container", ("tag",),
+     lambda rng, it, r: ([Atom(None, 'tag = "%s"' % rng.pick(["type", "kind"]))], "single", None),
+     kinds=("tagged",), conv_ok=False)
+
+
+def _unnamed_variant(rng, it, r):
     used = {v.name for v in it.variants}
-    r = j % 3
-    nf = [1, rng.rng(2, 3), 0][r]
+    nf = [1, rng.rng(2, 3), 0][r % 3]
     fu = set()
-    v = Variant(pascal(rng, used), [gen_field(rng, it, fu, quiet=True) for _ in range(nf)])
+    v = Variant(pascal(rng, used), [gen_field(rng, it, fu, quiet=(r % 2 == 0)) for _ in range(nf)])
+    v.fields = [f for f in v.fields if f.ty != "h::W"] if nf else []
+    for f in v.fields:
+        sprinkle(rng, f.lines)
     v.shape_p = "tuple"
     it.variants.insert(rng.below(len(it.variants) + 1), v)
-    return finish_container(rng, it), ["one-unnamed", "several-unnamed", "empty-parens"][r]
+    return v
 
 
-@cell("shape/enum-without-tag", "shape", "container", k=2)
-def _(rng, j):
-    it = gen_base(rng, "tagged", exclude=("tag",))
-    tag = Atom(None, 'tag = "%s"' % rng.pick(["type", "kind"]))
-    if j % 2 == 0:
-        # keep other container attributes out of the way in half of the instances
-        it.noise = [a for a in it.noise if a.p.startswith("error")]
-    return finish_container(rng, it, [tag], "one"), "bare" if j % 2 == 0 else "with-other-attrs"
-
+Cell("shape/unnamed-variant", "shape", "variant", (), _nothing, kinds=("tagged",), setup=_unnamed_variant)
 
 # ------------------------------------------------------------------------------------------------
 # unknown attribute
 
-def unknown_text(rng, name, j):
-    form = (j // 2) % 3
+def unknown_text(rng, name, r):
+    form = r % 3
     if form == 0:
         return name
     if form == 1:
@@ -124,36 +316,26 @@ def unknown_text(rng, name, j):
 
 for _name in ["bogus", "rename", "default", "skip"]:
     for _kind in ["struct", "enum"]:
-        def _b(rng, j, _name=_name, _kind=_kind):
-            kind = "struct" if _kind == "struct" else ["tagged", "unit"][j % 2]
-            it = gen_base(rng, kind)
-            txt = unknown_text(rng, _name, j) if _name in ("bogus", "rename") else _name
-            return finish_container(rng, it, [Atom(txt, None)], single_spelling(j)), f"{kind}/{single_spelling(j)}"
-        cell(f"unknown/container/{_name}/{_kind}", "unknown", "container", k=2)(_b)
+        def _p(rng, it, r, _name=_name):
+            txt = unknown_text(rng, _name, r) if _name in ("bogus", "rename") else _name
+            return [Atom(txt, None)], "single", None
+        Cell(f"unknown/container/{_name}/{_kind}", "unknown", "container", (), _p,
+             kinds=("struct",) if _kind == "struct" else ("tagged", "unit"))
 
 for _name in ["bogus", "tag", "default", "error"]:
-    def _b(rng, j, _name=_name):
-        kind = ["tagged", "unit"][j % 2]
-        it = gen_base(rng, kind)
-        v = rng.pick(it.variants)
-        txt = {"bogus": unknown_text(rng, "bogus", j), "tag": 'tag = "kind"', "default": "default",
+    def _p(rng, it, r, _name=_name):
+        txt = {"bogus": unknown_text(rng, "bogus", r), "tag": 'tag = "kind"', "default": "default",
                "error": "error = deserr::errors::JsonError"}[_name]
-        noise = [a for ln in v.lines for a in (ln.atoms or [])]
-        v.lines = layout(rng, noise, [Atom(txt, None)], single_spelling(j))
-        vk = "unit-variant" if v.fields is None else "struct-variant"
-        return finish_container(rng, it), f"{kind}/{vk}/{single_spelling(j)}"
-    cell(f"unknown/variant/{_name}", "unknown", "variant", k=2)(_b)
+        return [Atom(txt, None)], "single", None
+    Cell(f"unknown/variant/{_name}", "unknown", "variant", (), _p, kinds=("tagged", "unit"))
 
 for _name in ["bogus", "tag", "rename_all", "deny_unknown_fields", "validate"]:
     for _host in ["struct", "variant"]:
-        def _b(rng, j, _name=_name, _host=_host):
-            it = base_for_field(rng, _host)
-            txt = {"bogus": unknown_text(rng, "bogus", j), "tag": 'tag = "kind"', "rename_all": "rename_all = camelCase",
+        def _p(rng, it, r, ty, _name=_name):
+            txt = {"bogus": unknown_text(rng, "bogus", r), "tag": 'tag = "kind"', "rename_all": "rename_all = camelCase",
                    "deny_unknown_fields": "deny_unknown_fields", "validate": "validate = check_a -> h::ValErrA"}[_name]
-            ty = rng.pick(TYPES)[0]
-            add_field(rng, it, _host, ty, [Atom(txt, None)], single_spelling(j))
-            return finish_container(rng, it), single_spelling(j)
-        cell(f"unknown/field/{_name}/{_host}", "unknown", "field", k=2)(_b)
+            return [Atom(txt, None)], "single", None
+        Cell(f"unknown/field/{_name}/{_host}", "unknown", "field", (), _p, hosts=(_host,))
 
 
 # ------------------------------------------------------------------------------------------------
@@ -189,198 +371,135 @@ def container_dup_values(rng, item, attr):
     return v
 
 
-def container_kind_for(attr, kind_label, j):
-    """which base kind a container-level cell uses; returns (kind, excluded noise families)"""
-    fam = attr.split("_fn")[0].split("_mixed")[0]
-    excl = [fam]
-    if kind_label == "struct":
-        kind = "struct"
-    elif attr in ("tag", "deny_unknown_fields", "deny_unknown_fields_fn", "deny_unknown_fields_mixed"):
-        kind = "tagged"
-    elif attr == "try_from":
-        kind = "unit"
-    else:
-        kind = ["tagged", "unit"][j % 2]
-    if attr == "try_from":
-        excl += ["rename_all", "deny_unknown_fields", "tag"]
-    return kind, tuple(excl)
-
-
 for _attr in ["rename_all", "error", "deny_unknown_fields", "deny_unknown_fields_fn", "deny_unknown_fields_mixed",
               "from", "try_from", "validate", "tag"]:
     for _sp in ["one", "two"]:
         for _kind in (["enum"] if _attr == "tag" else ["struct", "enum"]):
-            def _b(rng, j, _attr=_attr, _sp=_sp, _kind=_kind):
-                kind, excl = container_kind_for(_attr, _kind, j)
-                mode = "generic" if _attr == "error" else None
-                it = gen_base(rng, kind, mode=mode, exclude=excl, no_e_noise=(_attr == "error"))
+            if _kind == "struct":
+                _kinds = ("struct",)
+            elif _attr in ("tag", "deny_unknown_fields", "deny_unknown_fields_fn", "deny_unknown_fields_mixed"):
+                _kinds = ("tagged",)
+            elif _attr == "try_from":
+                _kinds = ("unit",)
+            else:
+                _kinds = ("tagged", "unit")
+
+            def _p(rng, it, r, _attr=_attr, _sp=_sp):
                 a, b = container_dup_values(rng, it, _attr)
-                keep = (j // 2) % 2
-                return finish_container(rng, it, dup_atoms(a, b, keep), _sp), f"{kind}/twin-keeps-{keep}"
-            cell(f"dup/container/{_attr}/{_sp}/{_kind}", "dup", "container", k=2)(_b)
+                return dup_atoms(a, b, r % 2), _sp, None
+            Cell(f"dup/container/{_attr}/{_sp}/{_kind}", "dup", "container", (fam_of(_attr),), _p, kinds=_kinds,
+                 mode="generic" if _attr == "error" else None, no_e=(_attr == "error"))
 
 for _attr in ["rename", "rename_all"]:
     for _sp in ["one", "two"]:
-        def _b(rng, j, _attr=_attr, _sp=_sp):
-            kind = ["tagged", "unit", "tagged"][j % 3]
-            it = gen_base(rng, kind)
-            if j % 3 == 2:
-                cands = [v for v in it.variants if v.fields is not None]
-            else:
-                cands = it.variants
-            v = rng.pick(cands)
-            noise = [a for ln in v.lines for a in (ln.atoms or []) if not a.p.startswith(_attr + " =")]
+        def _p(rng, it, r, _attr=_attr, _sp=_sp):
             if _attr == "rename":
                 a, b = f'rename = "{lit(rng)}A"', f'rename = "{lit(rng)}B"'
             else:
                 a, b = rng.pick([("rename_all = camelCase", "rename_all = lowercase"),
                                  ("rename_all = lowercase", "rename_all = camelCase")])
-            keep = (j // 3) % 2
-            v.lines = layout(rng, noise, dup_atoms(a, b, keep), _sp)
-            vk = "unit-variant" if v.fields is None else "struct-variant"
-            return finish_container(rng, it), f"{kind}/{vk}/twin-keeps-{keep}"
-        cell(f"dup/variant/{_attr}/{_sp}", "dup", "variant", k=3)(_b)
+            return dup_atoms(a, b, r % 2), _sp, None
+        Cell(f"dup/variant/{_attr}/{_sp}", "dup", "variant", (_attr,), _p, kinds=("tagged", "unit"))
 
 
-def field_dup(rng, item, attr):
-    """returns (field type, [value a, value b], noise families to exclude)"""
+def field_dup_values(rng, item, attr, ty):
     E = item.E
     if attr == "rename":
-        return rng.pick(TYPES)[0], [f'rename = "{lit(rng)}A"', f'rename = "{lit(rng)}B"'], ("rename",)
+        return [f'rename = "{lit(rng)}A"', f'rename = "{lit(rng)}B"']
     if attr == "default":
-        return rng.pick(TYPES)[0], ["default", "default"], ("default",)
+        return ["default", "default"]
+    t = type_by_name(ty) if attr.startswith("default") else None
     if attr == "default_expr":
-        t = rng.pick(TYPES)
         v = [f"default = {t[1]}", f"default = {t[2]}"]
-        if rng.chance(1, 2):
-            v.reverse()
-        return t[0], v, ("default",)
-    if attr == "default_mixed":
-        t = rng.pick(TYPES)
+    elif attr == "default_mixed":
         v = ["default", f"default = {t[rng.rng(1, 2)]}"]
-        if rng.chance(1, 2):
-            v.reverse()
-        return t[0], v, ("default",)
-    if attr == "missing_field_error":
+    elif attr == "missing_field_error":
         v = [f"missing_field_error = h::missing_a::<{E}>", f"missing_field_error = h::missing_b::<{E}>"]
-        if rng.chance(1, 2):
-            v.reverse()
-        return rng.pick(TYPES)[0], v, ("missing_field_error", "default")
-    if attr == "error":
+    elif attr == "error":
         v = ["error = h::EB", "error = h::EC"]
-        if rng.chance(1, 2):
-            v.reverse()
-        return rng.pick(TYPES)[0], v, ("error",)
-    if attr == "map":
-        ty = rng.pick(sorted(MAPS))
-        v = list(MAPS[ty])
-        if rng.chance(1, 2):
-            v.reverse()
-        return ty, ["map = " + v[0], "map = " + v[1]], ("map",)
-    if attr == "from":
+    elif attr == "map":
+        v = ["map = " + MAPS[ty][0], "map = " + MAPS[ty][1]]
+    elif attr == "from":
         v = list(FROMS)
         rng.shuffle(v)
-        return "h::W", v[:2], ()
-    if attr == "try_from":
+        return v[:2]
+    elif attr == "try_from":
         v = list(TRY_FROMS)
         rng.shuffle(v)
-        return "h::W", v[:2], ()
-    raise KeyError(attr)
+        return v[:2]
+    else:
+        raise KeyError(attr)
+    if rng.chance(1, 2):
+        v.reverse()
+    return v
 
 
 for _attr in ["rename", "default", "default_expr", "default_mixed", "missing_field_error", "error", "map", "from",
               "try_from"]:
     for _sp in ["one", "two"]:
         for _host in ["struct", "variant"]:
-            def _b(rng, j, _attr=_attr, _sp=_sp, _host=_host):
-                it = base_for_field(rng, _host, mode="own" if _attr == "error" else None)
-                ty, vals, excl = field_dup(rng, it, _attr)
-                keep = j % 2
-                add_field(rng, it, _host, ty, dup_atoms(vals[0], vals[1], keep), _sp, exclude=excl)
-                return finish_container(rng, it), f"twin-keeps-{keep}"
-            cell(f"dup/field/{_attr}/{_sp}/{_host}", "dup", "field", k=2)(_b)
+            def _p(rng, it, r, ty, _attr=_attr, _sp=_sp):
+                a, b = field_dup_values(rng, it, _attr, ty)
+                return dup_atoms(a, b, r % 2), _sp, None
+            Cell(f"dup/field/{_attr}/{_sp}/{_host}", "dup", "field", (fam_of(_attr),), _p, hosts=(_host,),
+                 ty={"map": "maps", "from": "h::W", "try_from": "h::W"}.get(_attr),
+                 mode="own" if _attr == "error" else None)
 
 
 # ------------------------------------------------------------------------------------------------
 # conflicts
 
-C_FROM = ["from(String) = cfrom_a", "from(u64) = cfrom_b", "from(&String) = cfrom_r"]
-C_TRY = ["try_from(String) = ctry_a -> h::ConvErrA", "try_from(&u64) = ctry_b -> h::ConvErrB"]
-
 for _order in ["from-first", "try_from-first"]:
     for _sp in ["one", "two"]:
         for _kind in ["struct", "enum"]:
-            def _b(rng, j, _order=_order, _sp=_sp, _kind=_kind):
-                kind = "struct" if _kind == "struct" else "unit"
-                it = gen_base(rng, kind, exclude=("rename_all", "deny_unknown_fields", "tag"))
-                keep = j % 2      # 0: twin keeps `from`, 1: twin keeps `try_from`
+            def _p(rng, it, r, _order=_order, _sp=_sp):
+                keep = r % 2      # 0: twin keeps `from`, 1: twin keeps `try_from`
                 f, t = rng.pick(C_FROM), rng.pick(C_TRY)
                 fa, ta = Atom(f, f if keep == 0 else None), Atom(t, t if keep == 1 else None)
-                poison = [fa, ta] if _order == "from-first" else [ta, fa]
-                return finish_container(rng, it, poison, _sp), f"twin-keeps-{'from' if keep == 0 else 'try_from'}"
-            cell(f"conflict/container/from+try_from/{_order}/{_sp}/{_kind}", "conflict", "container", k=2)(_b)
+                return ([fa, ta] if _order == "from-first" else [ta, fa]), _sp, None
+            Cell(f"conflict/container/from+try_from/{_order}/{_sp}/{_kind}", "conflict", "container",
+                 ("from", "try_from"), _p, kinds=("struct",) if _kind == "struct" else ("unit",))
         for _host in ["struct", "variant"]:
-            def _b(rng, j, _order=_order, _sp=_sp, _host=_host):
-                it = base_for_field(rng, _host)
-                keep = j % 2
+            def _p(rng, it, r, ty, _order=_order, _sp=_sp):
+                keep = r % 2
                 f, t = rng.pick(FROMS), rng.pick(TRY_FROMS)
                 fa, ta = Atom(f, f if keep == 0 else None), Atom(t, t if keep == 1 else None)
-                poison = [fa, ta] if _order == "from-first" else [ta, fa]
-                add_field(rng, it, _host, "h::W", poison, _sp)
-                return finish_container(rng, it), f"twin-keeps-{'from' if keep == 0 else 'try_from'}"
-            cell(f"conflict/field/from+try_from/{_order}/{_sp}/{_host}", "conflict", "field", k=2)(_b)
+                return ([fa, ta] if _order == "from-first" else [ta, fa]), _sp, None
+            Cell(f"conflict/field/from+try_from/{_order}/{_sp}/{_host}", "conflict", "field", ("from", "try_from"), _p,
+                 hosts=(_host,), ty="h::W")
 
-
-@cell("conflict/container/tag-on-struct", "conflict", "container", k=4)
-def _(rng, j):
-    it = gen_base(rng, "struct")
-    if j % 4 >= 2:
-        it.noise = [a for a in it.noise if a.p.startswith("error")]
-    sp = single_spelling(j)
-    tag = Atom('tag = "%s"' % rng.pick(["type", "kind", "t"]), None)
-    return finish_container(rng, it, [tag], sp), f"{sp}/{'bare' if j % 4 >= 2 else 'with-other-attrs'}"
+Cell("conflict/container/tag-on-struct", "conflict", "container", ("tag",),
+     lambda rng, it, r: ([Atom('tag = "%s"' % rng.pick(["type", "kind", "t"]), None)], "single", None),
+     kinds=("struct",))
 
 
 def tf_conflict(partner, order, sp):
-    def _b(rng, j):
-        # the only partner present is the poisoned one (exactly one cause); a container try_from makes the
-        # derive ignore the shape, so both twin halves (drop try_from / drop the partner) are valid items
-        if partner == "tag":
-            kind = "tagged"
-        elif partner == "rename_all":
-            kind = ["struct", "unit"][(j // 2) % 2]
-        else:
-            kind = "struct"
-        it = gen_base(rng, kind, exclude=("rename_all", "deny_unknown_fields", "tag"))
-        keep_tf = (j % 2 == 0)
+    def _p(rng, it, r):
+        # a container try_from makes the derive ignore the shape: both twin halves are valid items
+        keep_tf = (r % 2 == 0)
         tf = rng.pick(C_TRY)
         if partner == "rename_all":
             px = "rename_all = " + rng.pick(["camelCase", "lowercase"])
         elif partner == "tag":
             px = 'tag = "%s"' % rng.pick(["type", "kind"])
         else:
-            px = "deny_unknown_fields" if (j // 2) % 2 == 0 else f"deny_unknown_fields = h::unknown_a::<{it.E}>"
+            px = "deny_unknown_fields" if (r // 2) % 2 == 0 else f"deny_unknown_fields = h::unknown_a::<{it.E}>"
         ta = Atom(tf, tf if keep_tf else None)
         xa = Atom(px, None if keep_tf else px)
-        if order == "rot":
-            first = (j // 2) % 2 == 0
-        else:
-            first = order == "tf-first"
-        poison = [ta, xa] if first else [xa, ta]
-        sub = f"{kind}/twin-keeps-{'try_from' if keep_tf else partner}"
-        if order == "rot":
-            sub += "/tf-first" if first else "/tf-last"
-        return finish_container(rng, it, poison, sp), sub
-    return _b
+        first = ((r // 2) % 2 == 0) if order == "rot" else (order == "tf-first")
+        return ([ta, xa] if first else [xa, ta]), sp, None
+    return _p
 
 
 for _partner in ["rename_all", "deny_unknown_fields"]:
     for _order in ["tf-first", "tf-last"]:
         for _sp in ["one", "two"]:
-            cell(f"conflict/container/try_from+{_partner}/{_order}/{_sp}", "conflict", "container", k=4)(
-                tf_conflict(_partner, _order, _sp))
+            Cell(f"conflict/container/try_from+{_partner}/{_order}/{_sp}", "conflict", "container",
+                 ("try_from",) + NO_TF, tf_conflict(_partner, _order, _sp),
+                 kinds=("struct", "unit") if _partner == "rename_all" else ("struct",))
 for _sp in ["one", "two"]:
-    cell(f"conflict/container/try_from+tag/{_sp}", "conflict", "container", k=4)(tf_conflict("tag", "rot", _sp))
+    Cell(f"conflict/container/try_from+tag/{_sp}", "conflict", "container", ("try_from",) + NO_TF,
+         tf_conflict("tag", "rot", _sp), kinds=("tagged",))
 
 
 # ------------------------------------------------------------------------------------------------
@@ -388,197 +507,145 @@ for _sp in ["one", "two"]:
 
 BAD_CASES = ["snake_case", "PascalCase", "UPPERCASE", "camelcase", "CamelCase", "kebab", "lower", "SCREAMING_SNAKE_CASE"]
 
-for _kind in ["struct", "enum"]:
-    def _b(rng, j, _kind=_kind):
-        kind = "struct" if _kind == "struct" else ["tagged", "unit"][j % 2]
-        it = gen_base(rng, kind, exclude=("rename_all",))
-        bad = BAD_CASES[(j // 2) % len(BAD_CASES)]
-        good = rng.pick(["camelCase", "lowercase"])
-        return finish_container(rng, it, [Atom(f"rename_all = {bad}", f"rename_all = {good}")], single_spelling(j)), \
-            f"{kind}/{bad}"
-    cell(f"value/container/rename_all/{_kind}", "value", "container", k=2)(_b)
+
+def _bad_case(rng, it, r, ty=None):
+    bad = BAD_CASES[r % len(BAD_CASES)]
+    return [Atom(f"rename_all = {bad}", "rename_all = " + rng.pick(["camelCase", "lowercase"]))], "single", None
 
 
-@cell("value/variant/rename_all", "value", "variant", k=3)
-def _(rng, j):
-    kind = ["tagged", "unit", "tagged"][j % 3]
-    it = gen_base(rng, kind)
-    v = rng.pick([x for x in it.variants if x.fields is not None] if j % 3 == 2 else it.variants)
-    noise = [a for ln in v.lines for a in (ln.atoms or []) if not a.p.startswith("rename_all")]
-    bad = BAD_CASES[(j // 3) % len(BAD_CASES)]
-    good = rng.pick(["camelCase", "lowercase"])
-    v.lines = layout(rng, noise, [Atom(f"rename_all = {bad}", f"rename_all = {good}")], single_spelling(j))
-    return finish_container(rng, it), f"{kind}/{bad}"
+Cell("value/container/rename_all/struct", "value", "container", ("rename_all",), _bad_case, kinds=("struct",))
+Cell("value/container/rename_all/enum", "value", "container", ("rename_all",), _bad_case, kinds=("tagged", "unit"))
+Cell("value/variant/rename_all", "value", "variant", ("rename_all",), _bad_case, kinds=("tagged", "unit"))
 
 
 # ------------------------------------------------------------------------------------------------
-# malformed syntax.  Every entry: name -> (bad text, good text or None, requirements)
+# malformed syntax: (bad text, corrected text or None)
 
-def syn_container(name, bad, good, kinds=("struct", "tagged", "unit"), excl=(), raw=False):
-    def _b(rng, j):
-        kind = kinds[j % len(kinds)]
-        it = gen_base(rng, kind, exclude=tuple(excl))
-        E = it.E
-        b = bad.replace("{E}", E)
-        g = good.replace("{E}", E) if good is not None else None
+def syn_container(name, bad, good, fams, kinds=ALL_KINDS, raw=False, mode=None, no_e=False):
+    def _p(rng, it, r):
+        b = bad.replace("{E}", it.E)
+        g = good.replace("{E}", it.E) if good is not None else None
         if raw:
-            if "{N}" in b:
-                # line-level malformation around two valid atoms
-                pool = ["rename_all = camelCase", "rename_all = lowercase"]
-                n1 = rng.pick(pool)
-                n2 = rng.pick(["validate = check_a -> h::ValErrA", "validate = check_b -> h::ValErrB"])
-                it.noise = [a for a in it.noise if not (a.p.startswith("rename_all") or a.p.startswith("validate"))]
-                b = b.replace("{N}", n1).replace("{M}", n2)
-                g = g.replace("{N}", n1).replace("{M}", n2)
-            return finish_container(rng, it, (), "raw", Line(None, b, g)), kind
-        sp = single_spelling(j // len(kinds))
-        return finish_container(rng, it, [Atom(b, g)], sp), f"{kind}/{sp}"
-    cell(f"syntax/container/{name}", "syntax", "container", k=max(2, len(kinds)))(_b)
+            n1 = rng.pick(["rename_all = camelCase", "rename_all = lowercase"])
+            n2 = rng.pick(["validate = check_a -> h::ValErrA", "validate = check_b -> h::ValErrB"])
+            b = b.replace("{N}", n1).replace("{M}", n2)
+            g = g.replace("{N}", n1).replace("{M}", n2) if g else None
+            return [], "raw", Line(None, b, g)
+        return [Atom(b, g)], "single", None
+    Cell(f"syntax/container/{name}", "syntax", "container", fams, _p, kinds=kinds, mode=mode, no_e=no_e)
 
 
-NO_TF = ("rename_all", "deny_unknown_fields", "tag")
-syn_container("rename_all-missing-eq", "rename_all camelCase", "rename_all = camelCase", excl=("rename_all",))
-syn_container("rename_all-missing-value", "rename_all =", "rename_all = lowercase", excl=("rename_all",))
-syn_container("rename_all-string-literal", 'rename_all = "camelCase"', "rename_all = camelCase", excl=("rename_all",))
-syn_container("rename_all-trailing-tokens", "rename_all = camelCase lowercase", "rename_all = camelCase",
-              excl=("rename_all",))
-syn_container("tag-missing-eq", 'tag "kind"', 'tag = "kind"', kinds=("tagged",), excl=("tag",))
-syn_container("tag-non-literal", "tag = kind", 'tag = "kind"', kinds=("tagged",), excl=("tag",))
-syn_container("tag-missing-value", "tag =", 'tag = "type"', kinds=("tagged",), excl=("tag",))
-syn_container("tag-trailing-tokens", 'tag = "kind" "type"', 'tag = "kind"', kinds=("tagged",), excl=("tag",))
+RA, TG, DN, VA, FR, TF = ("rename_all",), ("tag",), ("deny_unknown_fields",), ("validate",), ("from",), ("try_from",)
+syn_container("rename_all-missing-eq", "rename_all camelCase", "rename_all = camelCase", RA)
+syn_container("rename_all-missing-value", "rename_all =", "rename_all = lowercase", RA)
+syn_container("rename_all-string-literal", 'rename_all = "camelCase"', "rename_all = camelCase", RA)
+syn_container("rename_all-trailing-tokens", "rename_all = camelCase lowercase", "rename_all = camelCase", RA)
+syn_container("tag-missing-eq", 'tag "kind"', 'tag = "kind"', TG, kinds=("tagged",))
+syn_container("tag-non-literal", "tag = kind", 'tag = "kind"', TG, kinds=("tagged",))
+syn_container("tag-missing-value", "tag =", 'tag = "type"', TG, kinds=("tagged",))
+syn_container("tag-trailing-tokens", 'tag = "kind" "type"', 'tag = "kind"', TG, kinds=("tagged",))
 syn_container("deny_unknown_fields-missing-eq", "deny_unknown_fields h::unknown_a::<{E}>",
-              "deny_unknown_fields = h::unknown_a::<{E}>", kinds=("struct", "tagged"), excl=("deny_unknown_fields",))
-syn_container("deny_unknown_fields-missing-value", "deny_unknown_fields =", "deny_unknown_fields",
-              kinds=("struct", "tagged"), excl=("deny_unknown_fields",))
-syn_container("validate-missing-arrow", "validate = check_a", "validate = check_a -> h::ValErrA", excl=("validate",))
-syn_container("validate-missing-eq", "validate check_a -> h::ValErrA", "validate = check_a -> h::ValErrA",
-              excl=("validate",))
-syn_container("validate-missing-error-type", "validate = check_b ->", "validate = check_b -> h::ValErrB",
-              excl=("validate",))
-syn_container("from-no-parens", "from = cfrom_a", "from(String) = cfrom_a")
-syn_container("from-missing-eq", "from(String) cfrom_a", "from(String) = cfrom_a")
-syn_container("from-missing-value", "from(u64)", "from(u64) = cfrom_b")
-syn_container("from-empty-parens", "from() = cfrom_b", "from(u64) = cfrom_b")
-syn_container("try_from-missing-arrow", "try_from(String) = ctry_a", "try_from(String) = ctry_a -> h::ConvErrA",
-              kinds=("struct", "unit"), excl=NO_TF)
-syn_container("try_from-no-parens", "try_from = ctry_a -> h::ConvErrA", "try_from(String) = ctry_a -> h::ConvErrA",
-              kinds=("struct", "unit"), excl=NO_TF)
-syn_container("try_from-missing-error-type", "try_from(&u64) = ctry_b ->", "try_from(&u64) = ctry_b -> h::ConvErrB",
-              kinds=("struct", "unit"), excl=NO_TF)
-syn_container("name-value-attr", '#[deserr = "rename_all"]', None, raw=True)
-syn_container("bare-attr", "#[deserr]", None, raw=True)
-syn_container("empty-attr", "#[deserr()]", None, raw=True)
-syn_container("literal-instead-of-name", '#[deserr("rename_all")]', None, raw=True)
-syn_container("leading-comma", "#[deserr(, {N})]", "#[deserr({N})]", raw=True)
-syn_container("double-comma", "#[deserr({N},, {M})]", "#[deserr({N}, {M})]", raw=True)
-syn_container("missing-comma", "#[deserr({N} {M})]", "#[deserr({N}, {M})]", raw=True)
+              "deny_unknown_fields = h::unknown_a::<{E}>", DN, kinds=("struct", "tagged"))
+syn_container("deny_unknown_fields-missing-value", "deny_unknown_fields =", "deny_unknown_fields", DN,
+              kinds=("struct", "tagged"))
+syn_container("validate-missing-arrow", "validate = check_a", "validate = check_a -> h::ValErrA", VA)
+syn_container("validate-missing-eq", "validate check_a -> h::ValErrA", "validate = check_a -> h::ValErrA", VA)
+syn_container("validate-missing-error-type", "validate = check_b ->", "validate = check_b -> h::ValErrB", VA)
+syn_container("from-no-parens", "from = cfrom_a", "from(String) = cfrom_a", FR)
+syn_container("from-missing-eq", "from(String) cfrom_a", "from(String) = cfrom_a", FR)
+syn_container("from-missing-value", "from(u64)", "from(u64) = cfrom_b", FR)
+syn_container("from-empty-parens", "from() = cfrom_b", "from(u64) = cfrom_b", FR)
+syn_container("try_from-missing-arrow", "try_from(String) = ctry_a", "try_from(String) = ctry_a -> h::ConvErrA", TF,
+              kinds=("struct", "unit"))
+syn_container("try_from-no-parens", "try_from = ctry_a -> h::ConvErrA", "try_from(String) = ctry_a -> h::ConvErrA", TF,
+              kinds=("struct", "unit"))
+syn_container("try_from-missing-error-type", "try_from(&u64) = ctry_b ->", "try_from(&u64) = ctry_b -> h::ConvErrB", TF,
+              kinds=("struct", "unit"))
+syn_container("error-missing-eq", "error deserr::errors::JsonError", "error = deserr::errors::JsonError", ("error",),
+              mode="generic", no_e=True)
+syn_container("error-missing-value", "error =", "error = deserr::errors::JsonError", ("error",), mode="generic",
+              no_e=True)
+syn_container("name-value-attr", '#[deserr = "rename_all"]', None, (), raw=True)
+syn_container("bare-attr", "#[deserr]", None, (), raw=True)
+syn_container("empty-attr", "#[deserr()]", None, (), raw=True)
+syn_container("literal-instead-of-name", '#[deserr("rename_all")]', None, (), raw=True)
+syn_container("leading-comma", "#[deserr(, {N})]", "#[deserr({N})]", RA, raw=True)
+syn_container("double-comma", "#[deserr({N},, {M})]", "#[deserr({N}, {M})]", RA + VA, raw=True)
+syn_container("missing-comma", "#[deserr({N} {M})]", "#[deserr({N}, {M})]", RA + VA, raw=True)
 
 
-def syn_container_error(name, bad, good):
-    def _b(rng, j):
-        kind = ["struct", "tagged", "unit"][j % 3]
-        it = gen_base(rng, kind, mode="generic", exclude=("error",), no_e_noise=True)
-        sp = single_spelling(j // 3)
-        return finish_container(rng, it, [Atom(bad, good)], sp), f"{kind}/{sp}"
-    cell(f"syntax/container/{name}", "syntax", "container", k=3)(_b)
-
-
-syn_container_error("error-missing-eq", "error deserr::errors::JsonError", "error = deserr::errors::JsonError")
-syn_container_error("error-missing-value", "error =", "error = deserr::errors::JsonError")
-
-
-def syn_variant(name, bad, good, raw=False):
-    def _b(rng, j):
-        kind = ["tagged", "unit", "tagged"][j % 3]
-        it = gen_base(rng, kind)
-        v = rng.pick([x for x in it.variants if x.fields is not None] if j % 3 == 2 else it.variants)
-        fam = bad.split()[0].strip("#[(")
-        noise = [a for ln in v.lines for a in (ln.atoms or [])
-                 if not (a.p.startswith("rename =") and fam == "rename") and not (a.p.startswith("rename_all") and fam == "rename_all")]
-        vk = "unit-variant" if v.fields is None else "struct-variant"
+def syn_variant(name, bad, good, fams, raw=False):
+    def _p(rng, it, r):
         if raw:
-            if "{N}" in bad:
-                noise = []
-            v.lines = layout(rng, noise, (), "raw", Line(None, bad.replace("{N}", 'rename = "Aa"').replace("{M}", "rename_all = camelCase"),
-                                                         good.replace("{N}", 'rename = "Aa"').replace("{M}", "rename_all = camelCase") if good else None))
-            return finish_container(rng, it), f"{kind}/{vk}"
-        sp = single_spelling(j // 3)
-        v.lines = layout(rng, noise, [Atom(bad, good)], sp)
-        return finish_container(rng, it), f"{kind}/{vk}/{sp}"
-    cell(f"syntax/variant/{name}", "syntax", "variant", k=3)(_b)
+            b = bad.replace("{N}", 'rename = "Aa"').replace("{M}", "rename_all = camelCase")
+            g = good.replace("{N}", 'rename = "Aa"').replace("{M}", "rename_all = camelCase") if good else None
+            return [], "raw", Line(None, b, g)
+        return [Atom(bad, good)], "single", None
+    Cell(f"syntax/variant/{name}", "syntax", "variant", fams, _p, kinds=("tagged", "unit"))
 
 
-syn_variant("rename-missing-eq", 'rename "Xy"', 'rename = "Xy"')
-syn_variant("rename-missing-value", "rename =", 'rename = "Xy"')
-syn_variant("rename-non-literal", "rename = Xy", 'rename = "Xy"')
-syn_variant("rename-trailing-tokens", 'rename = "Xy" "Zw"', 'rename = "Xy"')
-syn_variant("rename_all-missing-eq", "rename_all lowercase", "rename_all = lowercase")
-syn_variant("rename_all-string-literal", 'rename_all = "lowercase"', "rename_all = lowercase")
-syn_variant("name-value-attr", '#[deserr = "rename"]', None, raw=True)
-syn_variant("bare-attr", "#[deserr]", None, raw=True)
-syn_variant("empty-attr", "#[deserr()]", None, raw=True)
-syn_variant("missing-comma", "#[deserr({N} {M})]", "#[deserr({N}, {M})]", raw=True)
+syn_variant("rename-missing-eq", 'rename "Xy"', 'rename = "Xy"', ("rename",))
+syn_variant("rename-missing-value", "rename =", 'rename = "Xy"', ("rename",))
+syn_variant("rename-non-literal", "rename = Xy", 'rename = "Xy"', ("rename",))
+syn_variant("rename-trailing-tokens", 'rename = "Xy" "Zw"', 'rename = "Xy"', ("rename",))
+syn_variant("rename_all-missing-eq", "rename_all lowercase", "rename_all = lowercase", RA)
+syn_variant("rename_all-string-literal", 'rename_all = "lowercase"', "rename_all = lowercase", RA)
+syn_variant("name-value-attr", '#[deserr = "rename"]', None, (), raw=True)
+syn_variant("bare-attr", "#[deserr]", None, (), raw=True)
+syn_variant("empty-attr", "#[deserr()]", None, (), raw=True)
+syn_variant("missing-comma", "#[deserr({N} {M})]", "#[deserr({N}, {M})]", ("rename", "rename_all"), raw=True)
 
 
-def syn_field(name, bad, good, ty=None, excl=(), raw=False, mode=None):
-    def _b(rng, j):
-        host = ["struct", "variant"][j % 2]
-        it = base_for_field(rng, host, mode=mode)
-        E = it.E
-        t = ty or rng.pick(TYPES)[0]
+def syn_field(name, bad, good, fams, ty=None, raw=False, mode=None):
+    def _p(rng, it, r, t):
         if raw:
             b = bad.replace("{N}", 'rename = "aa"').replace("{M}", "default")
             g = good.replace("{N}", 'rename = "aa"').replace("{M}", "default") if good else None
-            add_field(rng, it, host, t, (), "raw", exclude=excl, raw=Line(None, b, g), with_noise="{N}" not in bad)
-            return finish_container(rng, it), host
-        sp = single_spelling(j // 2)
-        b = bad.replace("{E}", E)
-        g = good.replace("{E}", E) if good else None
-        add_field(rng, it, host, t, [Atom(b, g)], sp, exclude=excl)
-        return finish_container(rng, it), f"{host}/{sp}"
-    cell(f"syntax/field/{name}", "syntax", "field", k=2)(_b)
+            return [], "raw", Line(None, b, g)
+        b = bad.replace("{E}", it.E)
+        g = good.replace("{E}", it.E) if good else None
+        return [Atom(b, g)], "single", None
+    Cell(f"syntax/field/{name}", "syntax", "field", fams, _p, hosts=("struct", "variant"), ty=ty, mode=mode)
 
 
-syn_field("rename-missing-eq", 'rename "aa"', 'rename = "aa"', excl=("rename",))
-syn_field("rename-missing-value", "rename =", 'rename = "aa"', excl=("rename",))
-syn_field("rename-non-literal", "rename = aa", 'rename = "aa"', excl=("rename",))
-syn_field("rename-int-literal", "rename = 5", 'rename = "5"', excl=("rename",))
-syn_field("rename-trailing-tokens", 'rename = "aa" "bb"', 'rename = "aa"', excl=("rename",))
-syn_field("default-missing-value", "default =", "default", excl=("default", "missing_field_error"))
-syn_field("default-missing-eq", "default 7", "default = 7", ty="u32", excl=("default", "missing_field_error"))
+RN, DF, MF, ER, MP = ("rename",), ("default",), ("missing_field_error",), ("error",), ("map",)
+syn_field("rename-missing-eq", 'rename "aa"', 'rename = "aa"', RN)
+syn_field("rename-missing-value", "rename =", 'rename = "aa"', RN)
+syn_field("rename-non-literal", "rename = aa", 'rename = "aa"', RN)
+syn_field("rename-int-literal", "rename = 5", 'rename = "5"', RN)
+syn_field("rename-trailing-tokens", 'rename = "aa" "bb"', 'rename = "aa"', RN)
+syn_field("default-missing-value", "default =", "default", DF)
+syn_field("default-missing-eq", "default 7", "default = 7", DF, ty="u32")
 syn_field("missing_field_error-missing-eq", "missing_field_error h::missing_a::<{E}>",
-          "missing_field_error = h::missing_a::<{E}>", excl=("default", "missing_field_error"))
-syn_field("missing_field_error-missing-value", "missing_field_error =", "missing_field_error = h::missing_b::<{E}>",
-          excl=("default", "missing_field_error"))
-syn_field("error-missing-eq", "error h::EB", "error = h::EB", excl=("error",), mode="own")
-syn_field("error-missing-value", "error =", "error = h::EC", excl=("error",), mode="own")
-syn_field("map-missing-eq", "map h::inc_u32", "map = h::inc_u32", ty="u32", excl=("map",))
-syn_field("map-missing-value", "map =", "map = h::upper", ty="String", excl=("map",))
-syn_field("map-call-parens", "map = h::not()", "map = h::not", ty="bool", excl=("map",))
-syn_field("from-no-parens", "from = h::w_from_u64", "from(u64) = h::w_from_u64", ty="h::W")
-syn_field("from-missing-eq", "from(u64) h::w_from_u64", "from(u64) = h::w_from_u64", ty="h::W")
-syn_field("from-missing-value", "from(String)", "from(String) = h::w_from_string", ty="h::W")
-syn_field("from-empty-parens", "from() = h::w_from_u64", "from(u64) = h::w_from_u64", ty="h::W")
-syn_field("try_from-missing-arrow", "try_from(u64) = h::w_try_u64", "try_from(u64) = h::w_try_u64 -> h::Odd", ty="h::W")
-syn_field("try_from-no-parens", "try_from = h::w_try_u64 -> h::Odd", "try_from(u64) = h::w_try_u64 -> h::Odd", ty="h::W")
+          "missing_field_error = h::missing_a::<{E}>", MF)
+syn_field("missing_field_error-missing-value", "missing_field_error =", "missing_field_error = h::missing_b::<{E}>", MF)
+syn_field("error-missing-eq", "error h::EB", "error = h::EB", ER, mode="own")
+syn_field("error-missing-value", "error =", "error = h::EC", ER, mode="own")
+syn_field("map-missing-eq", "map h::inc_u32", "map = h::inc_u32", MP, ty="u32")
+syn_field("map-missing-value", "map =", "map = h::upper", MP, ty="String")
+syn_field("map-call-parens", "map = h::not()", "map = h::not", MP, ty="bool")
+syn_field("from-no-parens", "from = h::w_from_u64", "from(u64) = h::w_from_u64", FR, ty="h::W")
+syn_field("from-missing-eq", "from(u64) h::w_from_u64", "from(u64) = h::w_from_u64", FR, ty="h::W")
+syn_field("from-missing-value", "from(String)", "from(String) = h::w_from_string", FR, ty="h::W")
+syn_field("from-empty-parens", "from() = h::w_from_u64", "from(u64) = h::w_from_u64", FR, ty="h::W")
+syn_field("try_from-missing-arrow", "try_from(u64) = h::w_try_u64", "try_from(u64) = h::w_try_u64 -> h::Odd", TF, ty="h::W")
+syn_field("try_from-no-parens", "try_from = h::w_try_u64 -> h::Odd", "try_from(u64) = h::w_try_u64 -> h::Odd", TF, ty="h::W")
 syn_field("try_from-missing-error-type", "try_from(&String) = h::w_try_str ->",
-          "try_from(&String) = h::w_try_str -> h::NotAscii", ty="h::W")
-syn_field("skip-with-value", "skip = true", "skip", excl=("default", "missing_field_error", "map", "rename", "error"))
-syn_field("needs_predicate-with-value", "needs_predicate = true", "needs_predicate", excl=("needs_predicate",))
-syn_field("name-value-attr", '#[deserr = "default"]', None, raw=True)
-syn_field("bare-attr", "#[deserr]", None, raw=True)
-syn_field("empty-attr", "#[deserr()]", None, raw=True)
-syn_field("missing-comma", "#[deserr({N} {M})]", "#[deserr({N}, {M})]", raw=True)
+          "try_from(&String) = h::w_try_str -> h::NotAscii", TF, ty="h::W")
+syn_field("skip-with-value", "skip = true", "skip", ("skip",))
+syn_field("needs_predicate-with-value", "needs_predicate = true", "needs_predicate", ("needs_predicate",))
+syn_field("name-value-attr", '#[deserr = "default"]', None, (), raw=True)
+syn_field("bare-attr", "#[deserr]", None, (), raw=True)
+syn_field("empty-attr", "#[deserr()]", None, (), raw=True)
+syn_field("missing-comma", "#[deserr({N} {M})]", "#[deserr({N}, {M})]", ("rename", "default"), raw=True)
 
 
 def plan(tier):
-    """[(cell, instance index)] : every cell in both tiers; quick max(2,k) instances per cell, thorough ~6000"""
-    per = None
-    if tier == "thorough":
-        per = -(-6000 // len(CELLS))
+    """[(cell index, cell, instance index)]: quick = every (cell, context) once; thorough = every (cell, context,
+    placement) (4 passes).  Instance 0 of every cell carries the tool attribute before all deserr attributes."""
+    passes = 1 if tier == "quick" else 4
     out = []
-    for c in CELLS:
-        n = max(2, c["k"]) if per is None else max(per, c["k"])
-        for j in range(n):
-            out.append((c, j))
+    for ci, c in enumerate(CELLS):
+        for j in range(max(2, len(c.ctxs) * passes)):
+            out.append((ci, c, j))
     return out
